@@ -27,8 +27,12 @@ type lockSpec struct {
 type lockState struct {
 	mode      uint8 // 0 none, 1 read, 2 write
 	epoch     uint8 // number of acquisitions so far on this path
-	readEpoch uint8 // epoch of the first guarded read (0: none yet)
+	// last[i]: epoch of the most recent read of guarded field i on this path
+	// (0: none yet; calleeEpoch: read inside a callee's own critical section)
+	last [4]uint8
 }
+
+const calleeEpoch = 255
 
 type lockViolation struct {
 	pos  token.Pos
@@ -74,6 +78,36 @@ func (c *Ctx) runLockSpec(spec *lockSpec) {
 		n, _ := types.Unalias(t).(*types.Named)
 		return n != nil && n.Origin() == named.Origin()
 	}
+
+	fieldIdx := map[*types.Var]int{}
+	for i := 0; i < st.NumFields(); i++ {
+		if guarded[st.Field(i)] {
+			if len(fieldIdx) >= 4 {
+				c.Stale(spec.pkg + "." + spec.typ + ": more than 4 guarded fields")
+			}
+			fieldIdx[st.Field(i)] = len(fieldIdx)
+		}
+	}
+	// methods of T that read guarded fields themselves (under their own lock)
+	calleeReads := map[*types.Func]map[int]bool{}
+	c.Funcs(spec.pkg, func(fr *FuncRef) {
+		if fr.Decl.Recv == nil || !isT(info.TypeOf(fr.Decl.Recv.List[0].Type)) {
+			return
+		}
+		ast.Inspect(fr.Decl.Body, func(n ast.Node) bool {
+			if sel, ok := n.(*ast.SelectorExpr); ok {
+				if sl := info.Selections[sel]; sl != nil && sl.Kind() == types.FieldVal && isT(sl.Recv()) {
+					if f, _ := sl.Obj().(*types.Var); f != nil && guarded[f.Origin()] {
+						if calleeReads[fr.Obj] == nil {
+							calleeReads[fr.Obj] = map[int]bool{}
+						}
+						calleeReads[fr.Obj][fieldIdx[f.Origin()]] = true
+					}
+				}
+			}
+			return true
+		})
+	})
 
 	prefix := spec.typ + "/"
 	c.Funcs(spec.pkg, func(fr *FuncRef) {
@@ -150,6 +184,13 @@ func (c *Ctx) runLockSpec(spec *lockSpec) {
 			return sel.Sel.Name, true
 		}
 		pe.Call = func(s lockState, call *ast.CallExpr) []lockState {
+			if fn := Callee(info, call); fn != nil && calleeReads[fn.Origin()] != nil {
+				if sel, ok := ast.Unparen(call.Fun).(*ast.SelectorExpr); ok && isT(info.TypeOf(sel.X)) {
+					for i := range calleeReads[fn.Origin()] {
+						s.last[i] = calleeEpoch
+					}
+				}
+			}
 			if op, ok := lockOp(call); ok {
 				switch op {
 				case "Lock":
@@ -182,16 +223,20 @@ func (c *Ctx) runLockSpec(spec *lockSpec) {
 			if writes[sel] {
 				if s.mode != 2 {
 					viol = append(viol, lockViolation{sel.Pos(), "writes " + f.Name() + " without holding " + spec.mutex + " in write mode"})
-				} else if s.readEpoch != 0 && s.readEpoch != s.epoch {
-					viol = append(viol, lockViolation{sel.Pos(), "writes " + f.Name() + " in a different critical section than the read it decided on (check-then-act across an unlock)"})
+				} else if le := s.last[fieldIdx[f.Origin()]]; le != 0 && le != s.epoch {
+					where := "an earlier critical section of this function"
+					if le == calleeEpoch {
+						where = "the critical section of a method it called"
+					}
+					viol = append(viol, lockViolation{sel.Pos(), "writes " + f.Name() + " in a different critical section than the read of " + f.Name() + " it decided on, which happened in " + where + " (check-then-act across an unlock: two threads can both miss and both insert)"})
 				}
 			} else {
 				if s.mode == 0 {
 					viol = append(viol, lockViolation{sel.Pos(), "reads " + f.Name() + " without holding " + spec.mutex})
 				}
 			}
-			if s.readEpoch == 0 && s.mode != 0 {
-				s.readEpoch = s.epoch
+			if s.mode != 0 && !writes[sel] {
+				s.last[fieldIdx[f.Origin()]] = s.epoch
 			}
 			return []lockState{s}
 		}
